@@ -13,8 +13,8 @@
    The flag [fixed] selects the code that is modelled:
      fixed = false : the code of /repo today  (np.nanargmin raises on an all-NaN list -> ErrAllNaN)
      fixed = true  : the code after fixes/F19_greedy_no_admissible_candidate.patch
-                     (all candidates masked -> the loop stops; without early stopping the loop also stops once every
-                      predictor is in the ensemble, because "k unique members" can then never be reached) *)
+                     (all candidates masked -> the loop stops; without early stopping and without max_it the loop also
+                      stops once every predictor is in the ensemble, because "k unique members" can then never be reached) *)
 From Coq Require Import List ZArith QArith Bool Arith.
 Import ListNotations.
 Open Scope nat_scope.
@@ -83,7 +83,7 @@ Definition step (o : opts) (n : nat) (sel : list nat) (lmin : Q) (bag : list nat
 Definition cont (fixed : bool) (o : opts) (n : nat) (sel : list nat) (it : nat) : bool :=
   match o_maxit o with None => true | Some m => it <? m end
   && (nunique n sel <? o_k o)
-  && negb (fixed && negb (o_es o) && (nunique n sel =? n)).
+  && negb (fixed && negb (o_es o) && match o_maxit o with None => true | Some _ => false end && (nunique n sel =? n)).
 
 Inductive result := Done (sel : list nat) (loss : Q) | ErrAllNaN | OutOfFuel.
 
